@@ -228,6 +228,21 @@ CHECKS["C17"] = (
     "DESIGN.md §3 C17",
 )
 
+CHECKS["C16"] = (
+    "exploration",
+    "class-__dict__ snapshot monitor (before decoration, after bootstrap, after first use of every generated name through class and instance) compared with an independent naming model; behavioural probe of every user-occupied member",
+    "For seeded small classes (selection by annotations / attrs / attrs_typed / attrs_skip, init/repr/eq switches, lazy or eager, base "
+    "class or subclass of a spec class) the unoccupied class and, for (a sample of / all) generated method names, the variants "
+    "defining that name in the class body as function / staticmethod / classmethod / property / plain value are decorated. Every name "
+    "present before decoration must map to the identical object at both later stages (managed Attr/Field declarations consumed), the "
+    "occupied member must still behave as written, the set of added names must equal the model (4 scalar helpers per owned attribute, "
+    "4 element helpers per collection under the table singular, top-level helpers, dunders per switches, aliases) minus occupied ones. "
+    "Directed cases: attrs with private names -> ValueError; child/children and num/nums collisions -> <attr>_item; double collision "
+    "-> RuntimeError.",
+    "Trusted: naming model and singular table in checks/c16.py. __new__ (lazy residue) and a created __annotations__ are tolerated.",
+    "DESIGN.md §3 C16",
+)
+
 NOT_YET = {}
 
 
